@@ -191,15 +191,20 @@ fn plant_failure(program: &mut Program, k: usize, width: u32) {
         _ => ("ld r1, Far_away_1".to_string(), 300),
     };
     let k = k.min(program.stmts.len());
-    program.stmts.insert(
-        k,
-        Stmt {
-            labels: vec![],
-            text,
-            words: 1,
-            breaks: 0,
-        },
-    );
+    // One failing statement, or (one program in eight) a whole run of them: 255, 256, 257 or 512,
+    // the counts at which a status derived from the number of failures would wrap
+    let copies = if (k + pad) % 8 == 1 { [255usize, 256, 257, 512][(k + pad / 100) % 4] } else { 1 };
+    for _ in 0..copies {
+        program.stmts.insert(
+            k,
+            Stmt {
+                labels: vec![],
+                text: text.clone(),
+                words: 1,
+                breaks: 0,
+            },
+        );
+    }
     let far = Stmt {
         labels: vec!["Far_away_1".to_string()],
         text: ".fill x0001".to_string(),
